@@ -209,6 +209,125 @@ def rule_G_FIELDS(ctx, repo):
                      '%s:%d' % (m.rel, fi.node.lineno))
 
 
+# ---------------------------------------------------------------------------------------------------------------- signature(): shared by _keygen and validate
+LOOKTHROUGH = ('LIB:unwrap', 'LIBF:unwrap')
+NOT_POSITIONAL = ('SPEC.kwonlyargs', 'SPEC.kwonlydefaults', 'SPEC.varargs', 'SPEC.varkw', 'SPEC.keywords', 'SPEC.defaults', 'SPEC.annotations')
+
+
+def _conjuncts(t):
+    if isinstance(t, ast.BoolOp) and isinstance(t.op, ast.And):
+        out = []
+        for v in t.values:
+            out.extend(_conjuncts(v))
+        return out
+    return [t]
+
+
+def rule_SIG(ctx, repo):
+    """V-TARGET, V-POS and the guard part of V-SELF: structural facts about signature(), on which both the key (_keygen) and the verdict
+    (validate) are built."""
+    m = repo.mod('_inspect')
+    sig = m.functions.get('signature')
+    if sig is None:
+        raise AnalysisError('anchor vanished: klepto/_inspect.py::signature')
+    a = sig.node.args
+    pos = [x.arg for x in a.posonlyargs + a.args]
+    if not pos:
+        raise AnalysisError('anchor changed: signature is expected to take (func, ...)')
+    fn = 'P:' + pos[0]
+    eng = DepEngine(m, field_roots=set(FIELD_ROOTS) | set([fn, fn + '.func']), source_calls=SOURCE_CALLS)
+    eng.run(sig.node, sig.qual, {})
+    ctx.analysed(sig.qual)
+    # ---- V-TARGET: the argspec is taken of the callable that will be bound (func, a partial's .func, an instance's __call__), never of
+    # something a decorator wrapped: binding is decided by the wrapper's own signature
+    n = 0
+    for s in eng.sites:
+        if s.kind != 'call' or not isinstance(s.node, ast.Call):
+            continue
+        f = s.node.func
+        nm = f.attr if isinstance(f, ast.Attribute) else (f.id if isinstance(f, ast.Name) else None)
+        if nm not in SOURCE_CALLS or not s.args:
+            continue
+        n += 1
+        arg = s.args[0]
+        bad = sorted(L for L in arg.d | arg.v if L in LOOKTHROUGH or L.endswith('.__wrapped__'))
+        kw = [k.arg for k in s.node.keywords]
+        ctx.ob('V-TARGET', '%s:%d %s' % (m.rel, s.lineno, ' '.join(unparse(s.node).split())[:50]), not bad)
+        if bad:
+            ctx.fail('V-TARGET', sig.qual, 'argspec of the wrapped function (%s)' % ', '.join(x.split(':')[-1].split('.')[-1] for x in bad),
+                     'signature() inspects what a decorator wrapped (%s) instead of the callable itself: whether func(*args, **kwds) binds is decided by the '
+                     'wrapper\'s own parameters, so validate/isvalid and the key are computed for a different signature' % ', '.join(bad),
+                     '%s:%d' % (m.rel, s.lineno))
+    if n < 1:
+        raise AnalysisError('instance count below confirmed minimum: no getfullargspec call found in signature()')
+    # ---- V-POS: the tuple of names that positional arguments are bound to derives from argspec.args only
+    rets = [s for s in eng.sites if s.kind == 'return' and s.depth == 0 and s.val is not None and s.val.elts]
+    full = [s for s in rets if len(s.val.elts) >= 2 and 'SPEC.args' in s.val.elts[0].v]
+    if not full:
+        raise AnalysisError('anchor changed: no return of signature() carries argspec.args in its first element')
+    for s in full:
+        bad = sorted(L for L in s.val.elts[0].v if L in NOT_POSITIONAL)
+        ctx.ob('V-POS', '%s:%d names element' % (m.rel, s.lineno), not bad)
+        if bad:
+            ctx.fail('V-POS', sig.qual, 'positional names include %s' % ', '.join(x.split('.')[-1] for x in bad),
+                     'the tuple of names returned first by signature() - which validate and _keygen zip with the positional arguments - is built from %s too: '
+                     'a surplus positional argument is then bound to a parameter that cannot be given by position, so an invalid call is reported valid and the key '
+                     'files the value under the wrong name' % ', '.join(bad), '%s:%d' % (m.rel, s.lineno))
+    # ---- V-SELF (guard): the instance is dropped for every bound method: the drop is conditioned on bound-ness alone
+    parents = {}
+    for node in ast.walk(sig.node):
+        for ch in ast.iter_child_nodes(node):
+            parents[ch] = node
+    spec_names = set()          # locals holding argspec.args itself
+    for node in ast.walk(sig.node):
+        if isinstance(node, ast.Assign) and len(node.targets) == 1 and isinstance(node.targets[0], ast.Name) and isinstance(node.value, ast.Attribute) \
+                and node.value.attr == 'args' and not (isinstance(node.value.value, ast.Name) and node.value.value.id == pos[0]):
+            spec_names.add(node.targets[0].id)
+    for node in ast.walk(sig.node):
+        if not (isinstance(node, ast.Assign) and isinstance(node.value, ast.Subscript) and isinstance(node.value.slice, ast.Slice)):
+            continue
+        sl = node.value.slice
+        if not (isinstance(sl.lower, ast.Constant) and sl.lower.value == 1 and sl.upper is None and sl.step is None):
+            continue
+        if not (isinstance(node.value.value, ast.Name) and len(node.targets) == 1 and isinstance(node.targets[0], ast.Name)
+                and node.targets[0].id == node.value.value.id):
+            continue
+        var = node.targets[0].id
+        conds = []
+        cur = node
+        while cur in parents and parents[cur] is not sig.node:
+            par = parents[cur]
+            if isinstance(par, ast.If):
+                if cur in par.body:
+                    conds.extend(_conjuncts(par.test))
+                else:
+                    conds.append(ast.UnaryOp(op=ast.Not(), operand=par.test))
+            cur = par
+        if not any('__self__' in unparse(c) or 'ismethod' in unparse(c) for c in conds):
+            continue
+        for c in conds:
+            txt = unparse(c)
+            names = set(x.id for x in ast.walk(c) if isinstance(x, ast.Name))
+            ok = False
+            if isinstance(c, ast.Call) and txt.split('(')[0].split('.')[-1] == 'ismethod':
+                ok = True
+            elif isinstance(c, ast.Compare) and len(c.ops) == 1 and isinstance(c.ops[0], ast.IsNot) and isinstance(c.left, ast.Attribute) \
+                    and c.left.attr == '__self__' and isinstance(c.comparators[0], ast.Constant) and c.comparators[0].value is None:
+                ok = True
+            elif isinstance(c, ast.Name) and (c.id == var or c.id in spec_names):
+                ok = True         # slicing an empty tuple is a no-op (no parameter names: nothing to drop)
+            elif isinstance(c, ast.Call) and isinstance(c.func, ast.Name) and c.func.id == 'len' and names == set(['len', var]):
+                ok = True
+            elif isinstance(c, ast.Attribute) and c.attr == '__self__':
+                ok = True         # truthiness: reported by the other part of V-SELF
+            ctx.ob('V-SELF', 'guard of the instance drop: %s' % txt[:50], ok)
+            if not ok:
+                ctx.fail('V-SELF', sig.qual, 'instance drop conditioned on %s' % ' '.join(txt.split())[:60],
+                         'signature() removes the bound instance from the names of a bound method only when additionally `%s`: for the bound methods where that is '
+                         'false the first parameter (self / cls) stays in the signature, so positional arguments are bound one place off - isvalid() misjudges calls '
+                         'and keys file values under the wrong names' % ' '.join(txt.split())[:80], '%s:%d' % (m.rel, node.lineno))
+
+
 # ---------------------------------------------------------------------------------------------------------------- C19: validate / isvalid
 def run_validate(repo):
     m = repo.mod('_inspect')
